@@ -11,13 +11,14 @@ import (
 )
 
 // VerifSeams replaces what the target reaches the outside world through:
-// stub resolver, dialer, trusted roots, MTA-STS policy fetch. The DNSSEC-aware
-// resolver is switched off (no DANE/DNSSEC in this world).
+// stub resolver, dialer, trusted roots, MTA-STS policy fetch and the
+// DNSSEC-aware resolver (nil = DNSSEC/DANE unavailable, as on a host without
+// a validating resolver).
 func (rt *Target) VerifSeams(resolver dns.Resolver, dialer func(ctx context.Context, network, addr string) (net.Conn, error),
-	roots *x509.CertPool, stsGet func(context.Context, string) (*mtasts.Policy, error)) {
+	roots *x509.CertPool, stsGet func(context.Context, string) (*mtasts.Policy, error), ext *dns.ExtResolver) {
 	rt.resolver = resolver
 	rt.dialer = dialer
-	rt.extResolver = nil
+	rt.extResolver = ext
 	if rt.tlsConfig != nil {
 		rt.tlsConfig.RootCAs = roots
 	}
@@ -26,7 +27,7 @@ func (rt *Target) VerifSeams(resolver dns.Resolver, dialer func(ctx context.Cont
 		case *mtastsPolicy:
 			pp.mtastsGet = stsGet
 		case *danePolicy:
-			pp.extResolver = nil
+			pp.extResolver = ext
 		}
 	}
 }
